@@ -123,6 +123,8 @@ func (w *world) item(v interface{}) (kind string, data []byte, op *common2.OutPo
 // ---- real filters ---------------------------------------------------------------------------
 
 type real struct {
+	p     param
+	tweak uint32
 	name  string
 	f     *bloom.Filter   // direct
 	tf    filter.TxFilter // through TxFilter (Load / Add / MatchConfirmed)
@@ -181,7 +183,7 @@ func build(p param, tweak uint32, mode string, types []common2.TxType) (r *real,
 			pan = x
 		}
 	}()
-	r = &real{name: fmt.Sprintf("%s tweak=%#x", p.name, tweak)}
+	r = &real{name: fmt.Sprintf("%s tweak=%#x", p.name, tweak), p: p, tweak: tweak}
 	var fl *msg.FilterLoad
 	if p.ctor {
 		r.f = bloom.NewFilter(uint32(p.size), tweak, p.fp)
@@ -329,6 +331,56 @@ func runBehaviour(w *world, r *real, b rep.Behaviour, mode string) (steps, queri
 			})
 			if pan != nil {
 				rep.Violation("C39:panic:add", fmt.Sprintf("adding a %s to filter %s panicked: %v", kind, r.name, pan), ctx)
+				return
+			}
+		case "Reload":
+			// another filter of ANOTHER size (same hash count / tweak / flags) holding the given items,
+			// built by the real code, is loaded over this one: Filter.Reload and TxFilter.Load again
+			dp := r.p
+			switch {
+			case dp.ctor:
+				dp.size = dp.size*10 + 7
+			case dp.size == 8:
+				dp.size = 36000
+			default:
+				dp.size = 8
+			}
+			var donor *real
+			pan := guard(func() {
+				var bp interface{}
+				donor, bp = build(dp, r.tweak, mode, nil)
+				if bp != nil {
+					panic(bp)
+				}
+				for _, x := range rep.List(a, "items") {
+					kind, data, op, err := w.item(x)
+					if err != nil {
+						panic(err)
+					}
+					switch kind {
+					case "txid":
+						var h common.Uint256
+						copy(h[:], data)
+						donor.f.AddHash(&h)
+					case "outpoint":
+						donor.f.AddOutPoint(op)
+					default:
+						donor.f.Add(data)
+					}
+				}
+				fl := donor.f.GetFilterLoadMsg()
+				fl.Flags = flagsOf(mode)
+				buf := new(bytes.Buffer)
+				if err := fl.Serialize(buf); err != nil {
+					panic(err)
+				}
+				r.f.Reload(fl)
+				if err := r.tf.Load(buf.Bytes()); err != nil {
+					panic(err)
+				}
+			})
+			if pan != nil {
+				rep.Violation("C39:panic:reload", fmt.Sprintf("reloading filter %s with a filter of another size panicked: %v", r.name, pan), ctx)
 				return
 			}
 		case "MatchTx":
